@@ -10,16 +10,19 @@ WT = '/tmp/wt/_keepm'
 
 def patched_files(diff):
     subprocess.check_call(['git', '-C', WT, 'reset', '-q', '--hard'])
+    subprocess.check_call(['git', '-C', WT, 'clean', '-fdq'])
     r = subprocess.run(['git', '-C', WT, 'apply', '--3way', diff], capture_output=True, text=True)
     if r.returncode:
         return None
-    files = subprocess.check_output(['git', '-C', WT, 'diff', '--name-only', 'HEAD'], text=True).split()
+    files = [l[3:].strip() for l in subprocess.check_output(['git', '-C', WT, 'status', '--porcelain', '--untracked-files=all'], text=True).splitlines() if l.strip()]
+    files = [f.split(' -> ')[-1] for f in files]
     ov = {}
     for f in files:
         p = os.path.join(WT, f)
         if os.path.isfile(p):
             ov[f] = open(p, 'rb').read().decode('utf-8', errors='replace').replace('\r\n', '\n')
     subprocess.check_call(['git', '-C', WT, 'reset', '-q', '--hard'])
+    subprocess.check_call(['git', '-C', WT, 'clean', '-fdq'])
     return ov
 
 
@@ -41,6 +44,7 @@ def main():
     if not os.path.isdir(WT):
         subprocess.check_call(['git', '-C', '/repo', 'worktree', 'add', '-q', '--detach', WT, 'HEAD'])
     subprocess.check_call(['git', '-C', WT, 'reset', '-q', '--hard'])
+    subprocess.check_call(['git', '-C', WT, 'clean', '-fdq'])
     subprocess.check_call(['git', '-C', WT, 'checkout', '-q', '--detach', subprocess.check_output(['git', '-C', '/repo', 'rev-parse', 'HEAD']).decode().strip()])
     from sa.run import ALL
     jobs = []
